@@ -90,6 +90,7 @@ def gen_unary(spec, level="quick"):
         if nd >= 2:
             ops.append(("fuse_expand", (((), tuple(range(nd))),)))
             ops.append(("fuse_expand", ((tuple(range(nd)), ()),)))
+            ops.append(("fuse_expand", (((0,), (), tuple(range(1, nd))),)))
     for t in reshape_targets(sizes):
         ops.append(("reshape", (t,)))
         ops.append(("reshape_back", (t,)))
@@ -103,6 +104,9 @@ def gen_unary(spec, level="quick"):
     c1 = fam.UNIVERSE[sym][1]
     ops.append(("expand_dims", (0, c1, True)))
     ops.append(("expand_dims", (nd, c1, False)))
+    # non-zero charge with the direction inherited from a neighbouring axis (left neighbour; right neighbour at position 0)
+    for pos in sorted({0, nd, min(1, nd)}):
+        ops.append(("expand_dims", (pos, c1, None)))
     ops += [("mul_scalar", ()), ("rmul_scalar", ()), ("div_scalar", ()), ("neg", ())]
     ops += [("sync_charges", ()), ("fill_missing_blocks", ())]
     for ax in range(nd):
@@ -127,7 +131,7 @@ def gen_unary(spec, level="quick"):
     return ops
 
 
-INPLACE_CAPABLE = {"transpose", "conj", "dagger", "fuse", "reshape", "squeeze", "expand_dims", "multiply_diagonal",
+INPLACE_CAPABLE = {"transpose", "conj", "dagger", "fuse", "fuse_expand", "reshape", "squeeze", "expand_dims", "multiply_diagonal",
                    "sync_charges", "phase_flip", "phase_transpose", "phase_global", "phase_sync", "phase_sector",
                    "transpose_nophase", "unfuse", "unfuse_all"}
 
@@ -185,6 +189,8 @@ def apply_unary(S, x, name, args, inplace=False):
         pos, c, dual = args
         if c is None:
             return x.expand_dims(pos, **kw)
+        if dual is None:
+            return x.expand_dims(pos, c=c, **kw)
         return x.expand_dims(pos, c=c, dual=dual, **kw)
     if name == "mul_scalar":
         return x * S.scalar("s")
